@@ -1487,12 +1487,17 @@ class RigServer(asyncssh.SSHServer):
         return True
 
 
-def _own_socket_inodes() -> Dict[str, int]:
+def _own_socket_inodes(pid: Any = 'self') -> Dict[str, int]:
     out = {}
 
-    for fd in os.listdir('/proc/self/fd'):
+    try:
+        fds = os.listdir('/proc/%s/fd' % pid)
+    except OSError:
+        return out
+
+    for fd in fds:
         try:
-            link = os.readlink('/proc/self/fd/' + fd)
+            link = os.readlink('/proc/%s/fd/%s' % (pid, fd))
         except OSError:
             continue
 
@@ -1502,10 +1507,10 @@ def _own_socket_inodes() -> Dict[str, int]:
     return out
 
 
-def own_listeners() -> List[str]:
-    """Listening TCP and UNIX sockets held by this process"""
+def own_listeners(pid: Any = 'self') -> List[str]:
+    """Listening TCP and UNIX sockets held by this process (or by pid)"""
 
-    inodes = _own_socket_inodes()
+    inodes = _own_socket_inodes(pid)
     out = []
 
     for fn in ('/proc/self/net/tcp', '/proc/self/net/tcp6'):
@@ -2702,6 +2707,14 @@ async def interop_scenario(rig: Rig, case, labels) -> bool:
         while rig.loop.time() < deadline and proc.poll() is None:
             try:
                 if isinstance(awhere, str) and not os.path.exists(awhere):
+                    raise OSError('not yet')
+
+                # the port was free when it was chosen, but another process
+                # (a parallel shard) may have taken it since: connect only
+                # once the listener is seen to belong to this scenario
+                if not isinstance(awhere, str) and \
+                        'tcp:%d' % awhere not in own_listeners(
+                            'self' if mode == 'Rtcp' else proc.pid):
                     raise OSError('not yet')
 
                 a = await rig.connect_a(awhere)
